@@ -24,6 +24,8 @@ func init() {
 			"two fields are treated as the same field only when name, alias, absence of selections, arguments and directives agree, and a selection is removed only on that verdict after its defer information was merged. " +
 			"It does not decide exec(norm(q)) == exec(q), validity preservation or idempotence (value level).",
 		Mutants: []Mutant{
+			{Name: "a variable without a value inside a list literal is rendered as null although it has a default (reverts part of the F68 fix)", File: "v2/pkg/ast/ast_value.go", Rule: "C03-R14", Key: "Document.writeJSONValue/absent-variable-takes-its-default",
+				Old: "\t\t\tif defaultValue, hasDefault := d.variableDefaultValue(variableName); hasDefault {\n\t\t\t\treturn d.writeJSONValue(buf, defaultValue)\n\t\t\t}\n", New: ""},
 			{Name: "a variable's default is searched among the definitions of all operations of the document (reverts the F67 fix)", File: "v2/pkg/ast/ast_val_variable_value.go", Rule: "C03-R13", Key: "Document.GetVariableBooleanValue/variable-definitions-per-operation",
 				Old: "\t\tfor _, i := range d.OperationDefinitions[node.Ref].VariableDefinitions.Refs {\n", New: "\t\tfor i := range d.VariableDefinitions {\n"},
 			{Name: "an extracted variable is reused when named type and outer nullability agree (seeded change C03-1)", File: "v2/pkg/astnormalization/variables_extraction.go", Rule: "C03-R11", Key: "variablesExtractionVisitor.extractedVariablesContainsKey/reuse-needs-deep-type-equality",
@@ -91,6 +93,7 @@ func runC03(r *fw.Run) {
 	walkerRereadsShrinkableLists(r, "C03-R10")
 	c03VariableReuseNeedsDeepTypeEquality(r)
 	c03VariableDefinitionsLookedUpPerOperation(r)
+	c03AbsentNestedVariableTakesItsDefault(r)
 
 	r.Rule("C03-R9", "normalization runs before validation: in astnormalization and package ast the ref of an ast.Value is handed to an accessor of kind K (doc.<K>Value…(v.Ref), doc.<K>Values[v.Ref]) only where v.Kind is known to be K (equality or switch clause on the same value, a boolean local defined from it, or every caller of an unexported helper); VariableDefinition.VariableValue is a variable by construction")
 	nKR := kindRefAgreement(r, "C03-R9", []string{"astnorm", "ast"}, nil)
@@ -772,4 +775,190 @@ func c03VariableDefinitionsLookedUpPerOperation(r *fw.Run) {
 		}
 	}
 	r.Check(nRefs >= 1, "C03-R13", "per-operation-iterations", "", "iterations over the variable definitions of one operation found ("+itoa(nRefs)+"); document-wide by-name searches: "+itoa(n), "no iteration over OperationDefinition.VariableDefinitions.Refs was recognised: the rule no longer sees how definitions are looked up")
+}
+
+// c03AbsentNestedVariableTakesItsDefault (R14): variable extraction turns a literal that mentions variables
+// ({name: $name}, [$tag]) into JSON before the defaults of the operation's variables have been copied into the request's
+// variables (the extraction stage precedes the default stage), and the variable loses its last usage — and with it its
+// definition and default — right afterwards. The converter therefore is the last place where the default is known: in
+// the function that renders an ast.Value as JSON, every place that gives up on a variable without a JSON value (writes
+// null for it, or skips the object field that holds it) is reached only after the default of the variable's definition
+// was consulted — a call of a function that reads VariableDefinition.DefaultValue.
+func c03AbsentNestedVariableTakesItsDefault(r *fw.Run) {
+	p := r.Prog
+	r.Rule("C03-R14", "in the ast.Value → JSON converter a variable without a JSON value is rendered as null / its object field omitted only after the default of the variable's definition was consulted")
+	// functions that read VariableDefinition.DefaultValue
+	consults := map[*types.Func]bool{}
+	for _, fi := range p.Funcs("ast") {
+		info := fi.Info()
+		fw.WalkAll(fi.Decl.Body, func(nd ast.Node) bool {
+			if sel, ok := nd.(*ast.SelectorExpr); ok && fw.IsFieldSel(info, sel, "ast", "VariableDefinition", "DefaultValue") {
+				consults[fi.Obj] = true
+			}
+			return true
+		})
+	}
+	n := 0
+	for _, fi := range p.Funcs("ast") {
+		info := fi.Info()
+		// the converter: reads Input.Variables with jsonparser.Get inside a dispatch over value kinds and writes literal.NULL
+		readsVars := false
+		fw.WalkAll(fi.Decl.Body, func(nd ast.Node) bool {
+			if c, ok := nd.(*ast.CallExpr); ok && len(c.Args) >= 1 {
+				if fn := fw.Callee(info, c); fn != nil && fn.Name() == "Get" && fn.Pkg() != nil && strings.HasSuffix(fn.Pkg().Path(), "/jsonparser") && fw.IsFieldSel(info, c.Args[0], "ast", "Input", "Variables") {
+					readsVars = true
+				}
+			}
+			return true
+		})
+		sig := fi.Obj.Type().(*types.Signature)
+		takesValue := false
+		for i := 0; i < sig.Params().Len(); i++ {
+			if fw.TypeIs(sig.Params().At(i).Type(), "ast", "Value") {
+				takesValue = true
+			}
+		}
+		if !readsVars || !takesValue {
+			continue
+		}
+		ord := 0
+		// results of jsonparser.Get(d.Input.Variables, …): error and data type variables
+		errVars, typeVars := map[types.Object]bool{}, map[types.Object]bool{}
+		fw.WalkAll(fi.Decl.Body, func(nd ast.Node) bool {
+			as, ok := nd.(*ast.AssignStmt)
+			if !ok || len(as.Rhs) != 1 || len(as.Lhs) != 4 {
+				return true
+			}
+			if c, isCall := ast.Unparen(as.Rhs[0]).(*ast.CallExpr); isCall {
+				if fn := fw.Callee(info, c); fn != nil && fn.Name() == "Get" && len(c.Args) >= 1 && fw.IsFieldSel(info, c.Args[0], "ast", "Input", "Variables") {
+					if id, isID := as.Lhs[3].(*ast.Ident); isID && id.Name != "_" {
+						errVars[info.ObjectOf(id)] = true
+					}
+					if id, isID := as.Lhs[1].(*ast.Ident); isID && id.Name != "_" {
+						typeVars[info.ObjectOf(id)] = true
+					}
+				}
+			}
+			return true
+		})
+		in := fw.NewInterp(fi)
+		check := func(pos token.Pos, what string, st *fw.State) {
+			if !in.Final() || !st.Must("absent") {
+				return
+			}
+			n++
+			ord++
+			r.Check(st.Must("default-consulted"), "C03-R14", fi.Name()+"/absent-variable-takes-its-default#"+itoa(ord), p.Pos(pos), fi.Name()+" "+what+" for a variable without a JSON value only after consulting the default of its definition",
+				fi.Name()+" "+what+" for a variable that has no value in Input.Variables without looking at the default of its definition: `query Q($name: String = \"x\") { find(filter: {name: $name}) }` with variables {} sends {\"filter\":{}} — the default is lost for good, because the variable's definition is deleted as unused right after the extraction")
+		}
+		in.H = fw.Hooks{
+			Lit: func(l *ast.FuncLit, ctx fw.LitCtx, st *fw.State) fw.LitMode { return fw.LitSkip },
+			Cond: func(e ast.Expr, branch bool, st *fw.State) {
+				op, leaves := fw.NNF(info, e, branch)
+				if op != "atom" && op != "and" {
+					return
+				}
+				for _, a := range leaves {
+					if id, isID := ast.Unparen(a.X).(*ast.Ident); isID {
+						if a.Kind == "NonNil" && errVars[info.ObjectOf(id)] {
+							st.Set("absent")
+						}
+						if a.Kind == "Eq" && typeVars[info.ObjectOf(id)] {
+							if c := fw.ConstObj(info, a.Y); c != nil && c.Name() == "NotExist" {
+								st.Set("absent")
+							}
+						}
+					}
+				}
+			},
+			Node: func(nd ast.Node, st *fw.State) {
+				switch x := nd.(type) {
+				case *ast.CallExpr:
+					if fn := fw.Callee(info, x); fn != nil && consults[fn] {
+						st.Set("default-consulted")
+					}
+					if fn := fw.Callee(info, x); fn != nil && fn.Name() == "Write" && len(x.Args) == 1 {
+						if c := fw.ConstObjOrVar(info, x.Args[0]); c == "NULL" {
+							check(x.Pos(), "writes null", st)
+						}
+					}
+				case *ast.AssignStmt:
+					// a new lookup starts a new question
+					if len(x.Lhs) == 4 {
+						st.Kill("absent")
+						st.Kill("default-consulted")
+					}
+				}
+			},
+		}
+		in.Run(nil)
+		// omissions: a `continue` below an if that establishes "no JSON value" (the interpreter does not visit branch
+		// statements, so this part works on the enclosing ifs: one of them, from the establishing if inwards, has to ask for
+		// the default in its init statement or condition)
+		var stack []ast.Node
+		ast.Inspect(fi.Decl.Body, func(nd ast.Node) bool {
+			if nd == nil {
+				stack = stack[:len(stack)-1]
+				return true
+			}
+			stack = append(stack, nd)
+			br, ok := nd.(*ast.BranchStmt)
+			if !ok || br.Tok != token.CONTINUE {
+				return true
+			}
+			absentAt := -1
+			for i := len(stack) - 1; i >= 0; i-- {
+				if _, isLoop := stack[i].(*ast.RangeStmt); isLoop {
+					break
+				}
+				if _, isLoop := stack[i].(*ast.ForStmt); isLoop {
+					break
+				}
+				is, isIf := stack[i].(*ast.IfStmt)
+				if !isIf {
+					continue
+				}
+				op, leaves := fw.NNF(info, is.Cond, true)
+				if op != "atom" && op != "and" {
+					continue
+				}
+				for _, a := range leaves {
+					if id, isID := ast.Unparen(a.X).(*ast.Ident); isID && a.Kind == "Eq" && typeVars[info.ObjectOf(id)] {
+						if c := fw.ConstObj(info, a.Y); c != nil && c.Name() == "NotExist" {
+							absentAt = i
+						}
+					}
+				}
+			}
+			if absentAt < 0 {
+				return true
+			}
+			asked := false
+			for i := absentAt; i < len(stack); i++ {
+				is, isIf := stack[i].(*ast.IfStmt)
+				if !isIf {
+					continue
+				}
+				for _, part := range []ast.Node{is.Init, is.Cond} {
+					if part == nil {
+						continue
+					}
+					fw.WalkAll(part, func(m ast.Node) bool {
+						if c, isCall := m.(*ast.CallExpr); isCall {
+							if fn := fw.Callee(info, c); fn != nil && consults[fn] {
+								asked = true
+							}
+						}
+						return true
+					})
+				}
+			}
+			n++
+			ord++
+			r.Check(asked, "C03-R14", fi.Name()+"/absent-variable-takes-its-default#"+itoa(ord), p.Pos(br.Pos()), fi.Name()+" omits the object field of a variable without a JSON value only after consulting the default of its definition",
+				fi.Name()+" omits the object field whose variable has no value in Input.Variables without looking at the default of its definition: `query Q($name: String = \"x\") { find(filter: {name: $name}) }` with variables {} sends {\"filter\":{}} — the default is lost for good, because the variable's definition is deleted as unused right after the extraction")
+			return true
+		})
+	}
+	r.Expect("C03-R14", "places where the JSON converter gives up on a variable without a value", n, 2)
 }
